@@ -2,6 +2,7 @@ import Pocket.Model.ParseFilter
 import Pocket.Model.HllFloat
 import Pocket.Model.Kind
 import Pocket.Model.Store
+import Pocket.Model.Keys
 import Pocket.Model.Verify
 /-
 pocket-model: answers the line protocol of DESIGN.md Appendix B from the Lean model.
@@ -347,6 +348,9 @@ def handleStore (s : Store) (cmd : String) (a : List String) : Option (Store × 
     let tg := tagEntryCount s.db.live
     let custom := joinOr (s.db.extra.map fun (nm, rows) => s!"{nm}:{rows.length}")
     some (s, s!"end={s.end} general={9 + s.db.extra.length} i={n} ci={n} tc={tg} ac={n} akc={n} atc={tg} ktc={tg} del={s.db.delIds.length} naddr={s.db.delAddrs.length} custom={custom}")
+  | "KYS", _ =>
+    let parts := ["ci", "tc", "ac", "akc", "atc", "ktc"].flatMap fun t => (tableKeys s.db.live t).map fun k => s!"{t}:{toHex k}"
+    some (s, "ok " ++ joinOr parts)
   | "XPT", [name, k, v] => do
     let k ← unhex k
     let v ← unhex v
